@@ -293,8 +293,6 @@ def shape_equal(r, ms):
 
 
 def shapes_equal(real, model):
-    # a path consisting of a lone `m` has no segment: outside the property, ignored on both sides
-    real = [r for r in real if len(r["pts"]) > 1]
     if len(real) != len(model):
         return False
     return all(shape_equal(r, model_shape(s)) for r, s in zip(real, model))
